@@ -10,6 +10,7 @@ HEADER = ("From Coq Require Import ZArith List Bool.\nFrom XV Require Import mod
           "Import ListNotations.\nOpen Scope Z_scope.\n")
 
 PHASE = dict(idle=0, creating=1, holding=2, running=3, ended=4, done=5)
+# scenario observables: jobs entries are [phase, dependency status, orphan, pid file exists]
 
 
 # --------------------------------------------------------------------------- generator
@@ -32,7 +33,7 @@ def gen_fs(rng, tier_thorough=False):
     elif prof == "window":
         w = dict(write=2, deliver=14)
     elif prof == "crash":
-        w = dict(kill=3, start=10)
+        w = dict(kill=3, start=8, startrace=8, jobkill=4)
     nsteps = rng.choice([40, 60, 90] if not tier_thorough else [60, 90, 140])
     return dict(kind="fs", total=total, nprocs=nprocs, jobs=jobs, seed=rng.randrange(10 ** 9), nsteps=nsteps,
                 maxkill=dict(crash=3).get(prof, rng.choice([0, 0, 1, 2])), drain=rng.choice([0, 25, 40]),
@@ -83,7 +84,7 @@ def quiescent(obs):
             continue
         if pr["watch"] or (pr["obs"] and pr["evq"]):
             return False
-    for ph, st, orph in obs["jobs"]:
+    for ph, st, orph, _pid in obs["jobs"]:
         if ph in ("creating", "holding", "running"):
             return False
         if ph == "ended" and not orph:
@@ -123,14 +124,19 @@ def oracle_fs(sc, res, which):
             if w > total:
                 out.append(("C08:capacity-exceeded-on-disk", "token files hold %d > total %d" % (w, total), k))
             # jobs between launch and exit, by request
-            run = sum(sc["jobs"][i]["c"] for i, (ph, _, _) in enumerate(o["jobs"]) if ph == "running")
+            run = sum(sc["jobs"][i]["c"] for i, (ph, _, _, _) in enumerate(o["jobs"]) if ph == "running")
             if run > total:
                 out.append(("C08:capacity-exceeded-running", "running jobs hold %d > total %d" % (run, total), k))
-            for i, (ph, _, _) in enumerate(o["jobs"]):
+            for i, (ph, _, _, _) in enumerate(o["jobs"]):
                 if ph in ("holding", "running") and disk.get("j%d.token" % i, -1) != sc["jobs"][i]["c"]:
                     out.append(("C08:running-job-without-token-file",
                                 "job %d is %s but its token file is missing or wrong" % (i, ph), k))
         if which == "C09":
+            if st["op"][0] == "fire" and "j%d.token" % st["op"][2] in disk:
+                i = st["op"][2]
+                out.append(("C09:watcher-leaves-token-file",
+                            "a watcher thread for the token file of job %d finished (job %s, pid file %s) and the file "
+                            "is still there" % (i, o["jobs"][i][0], "left behind" if o["jobs"][i][3] else "absent"), k))
             if st["op"][0] == "release" and st["res"] == "ok":
                 p, i = st["op"][1], st["op"][2]
                 pr = o["procs"][p]
@@ -157,7 +163,7 @@ def oracle_fs(sc, res, which):
                     elif pr["obs"] and pr["avail"] != total:
                         out.append(("C09:idle-available-below-total",
                                     "idle token shows available=%d, total=%d" % (pr["avail"], total), k))
-                    for i, (ph, stt, orph) in enumerate(o["jobs"]):
+                    for i, (ph, stt, orph, _pid) in enumerate(o["jobs"]):
                         if sc["jobs"][i]["p"] == p and ph == "idle" and not orph and stt == "WAIT" \
                                 and 1 <= sc["jobs"][i]["c"] <= total:
                             if pr["obs"]:
@@ -234,6 +240,10 @@ def g_label(op):
         return "Launch %s" % gnat(op[1])
     if k == "end":
         return "JobEnds %s %s" % (gnat(op[1]), gz(op[2]))
+    if k == "jobkill":
+        return "JobKilled %s" % gnat(op[1])
+    if k == "startrace":
+        return "StartRace %s %s" % (gnat(op[1]), gnat(op[2]))
     if k == "release":
         return "Release %s %s" % (gnat(op[1]), gnat(op[2]))
     if k == "deliver":
@@ -258,9 +268,9 @@ def g_obs(o):
                 gz(pr["avail"]), glist("(%s, %s)" % (g_name(n), gz(c)) for n, c in pr["cache"]), gbool(pr["obs"]),
                 glist(g_event(e) for e in pr["evq"]), glist(g_name(n) for n in pr["watch"])))
     jobs = []
-    for ph, st, orph in o["jobs"]:
+    for ph, st, orph, pid in o["jobs"]:
         stt = "None" if (st is None or ph != "idle") else "(Some %s)" % gbool(st == "OK")
-        jobs.append("(%s, %s, %s)" % (gnat(PHASE[ph]), stt, gbool(orph)))
+        jobs.append("(%s, %s, %s, %s)" % (gnat(PHASE[ph]), stt, gbool(orph), gbool(pid)))
     return "(mkSO %s %s %s)" % (disk, glist(procs), glist(jobs))
 
 
@@ -302,17 +312,21 @@ W3 = dict(kind="fs", total=2, nprocs=2, jobs=[dict(p=0, c=1)],
                  ["deliver", 0, 0], ["deliver", 0, 0]])
 
 
+W4 = dict(kind="fs", total=1, nprocs=2, jobs=[dict(p=0, c=1), dict(p=1, c=1)],
+          steps=[["start", 0], ["acquire", 0, 0], ["write", 0], ["launch", 0], ["kill", 0], ["end", 0, 0], ["startrace", 1, 0]])
+
+
 def detect_variant(driver, scratch):
-    """(parse_fix, count_fix, notify_fix) of the tree under test; a probe that cannot be run as scripted
+    """(parse_fix, count_fix, notify_fix, startup_recount_fix) of the tree under test; a probe that cannot be run as scripted
     (the tree behaves differently for another reason) is inconclusive and counts as repaired: the
     correspondence and the oracle then decide."""
     import copy
-    scs = [copy.deepcopy(W1), copy.deepcopy(W2), copy.deepcopy(W3)]
+    scs = [copy.deepcopy(W1), copy.deepcopy(W2), copy.deepcopy(W3), copy.deepcopy(W4)]
     scs[0]["steps"] = scs[0]["steps"][:4]
     scs[1]["steps"] = scs[1]["steps"][:11]
     scs[2]["steps"] = scs[2]["steps"][:5]
-    r1, r2, r3 = run_batches(driver, scs, scratch, per=1, timeout=40)
-    v_parse = v_count = v_notify = True
+    r1, r2, r3, r4 = run_batches(driver, scs, scratch, per=1, timeout=40)
+    v_parse = v_count = v_notify = v_watch = True
     try:
         if len(r1["steps"]) == 4:
             v_parse = not r1["steps"][3]["res"].startswith("raised")
@@ -320,13 +334,15 @@ def detect_variant(driver, scratch):
             v_notify = r2["steps"][10]["obs"]["jobs"][1][1] != "WAIT"
         if len(r3["steps"]) == 5:
             v_count = r3["steps"][4]["obs"]["procs"][1]["avail"] != 2
+        if len(r4["steps"]) == 7:
+            v_watch = r4["steps"][6]["obs"]["procs"][1]["avail"] != 0
     except Exception:  # noqa
         pass
-    return (v_parse, v_count, v_notify)
+    return (v_parse, v_count, v_notify, v_watch)
 
 
 def checker_name(variant):
-    return "(check_case_v (mkV %s %s %s))" % tuple(gbool(b) for b in variant)
+    return "(check_case_v (mkV %s %s %s %s))" % tuple(gbool(b) for b in variant)
 
 
 # --------------------------------------------------------------------------- shrinking
@@ -380,7 +396,7 @@ def run_check(c, which):
     c.props()
     scratch = c.scratch()
     variant = detect_variant(driver, scratch)
-    c.extra["tree_variant"] = dict(parse_fix=variant[0], count_fix=variant[1], notify_fix=variant[2])
+    c.extra["tree_variant"] = dict(parse_fix=variant[0], count_fix=variant[1], notify_fix=variant[2], startup_recount_fix=variant[3])
     if which == "C09":
         # the theorems of props/C09.v other than the refutations are about the repaired code
         c.obligations.append(dict(name="tie:tree-behaves-like-the-repaired-model", kind="tie", ok=all(variant),
